@@ -123,6 +123,32 @@ def check_objects(st, cls, spec, mode):
     return t1
 
 
+def rename_ranks(spec, rnd):
+    """Same Einsum text, but the ranks of the accessed (index-math) tensor are
+    declared under other names."""
+    import re
+    s = spec.clone()
+    ren = {}
+    fresh = iter(["U", "V", "G", "L", "D", "E"])
+    for r in s.decl.get("I", []):
+        if r != "C":
+            ren[r] = next(fresh)
+    def rn(x):
+        m = re.match(r"^([A-Z]+?)(\d*)$", x)
+        if m and m.group(1) in ren:
+            return ren[m.group(1)] + m.group(2)
+        return x
+    s.decl = {t: [rn(r) for r in rs] for t, rs in s.decl.items()}
+    if s.partitioning:
+        s.partitioning = {o: {rn(k): [re.sub(r"follow\((\w+)\)", lambda m: "follow(%s)" % rn(m.group(1)), d)
+                                      for d in ds] for k, ds in ps.items()}
+                          for o, ps in s.partitioning.items()}
+    if s.loop_order:
+        s.loop_order = {o: [rn(r) for r in lo] for o, lo in s.loop_order.items()}
+    s.tags = list(s.tags) + ["renamed-twin"]
+    return s
+
+
 def fresh_texts(items):
     """Compile each (yaml, mode) in its own fresh interpreter chunk."""
     code = ("import sys, json\nsys.path.insert(0, %r)\nfrom vf import run\n"
@@ -167,6 +193,17 @@ def shard(tier, seed, shard, nshards):
         t = check_objects(st, cls, spec, mode)
         if t is not None:
             history.append((spec, mode, t))
+    # renamed twins: the same index expressions on differently named ranks, compiled right
+    # after each other (a process-wide cache keyed on the expression would collide)
+    from ..gen import affine as GA
+    for k in range(4 if tier == "quick" else 30):
+        rnd2 = random.Random("%s-twin-%d-%d-%d" % (ID, seed, shard, k))
+        s1, ext, info = GA.gen_affine(rnd2, rnd2.choice(["S1", "S2", "S6", "S8"]))
+        s2 = rename_ranks(s1, rnd2)
+        for sp in (s1, s2):
+            t = check_objects(st, "twin", sp, "plain")
+            if t is not None:
+                history.append((sp, "plain", t))
     # history independence: the same specs, first thing in a fresh interpreter
     rnd = random.Random("%s-hist-%d-%d" % (ID, seed, shard))
     sample = rnd.sample(history, min(len(history), 40 if tier == "quick" else 120))
